@@ -349,6 +349,13 @@ class Checker:
             self.header(d["type"], ["length", "varData"], "data")
 
     def run(self):
+        # schema name = `--schema-name` if given, else the package attribute: a C++ namespace (symbolic name, no keyword,
+        # not std / posix); the package itself is free text when a custom name is given
+        sn = self.sch.get("schema_name") or self.sch.get("package")
+        if not sn or not NAME_RE.match(sn):
+            self.err("invalid-schema-name")
+        elif sn in KEYWORDS or sn in ("std", "posix"):
+            self.err("invalid-schema-name")
         for t in self.all_types:
             self.public(t)
         self.header(self.sch.get("header_type") or "messageHeader", ["schemaId", "templateId", "version", "blockLength"], "message")
